@@ -223,6 +223,143 @@ def _unmask(m, lines, obl, extra):
                 break
 
 
+def _is_one_line_assert(lines, ln):
+    st = lines[ln - 1].strip()
+    return st.startswith("assert(") and st.endswith(");")
+
+
+def _conditional(m, lines, obl, extra):
+    """Third pass: which `ok` obligations of a function are proved only DOWNSTREAM of a failed check?
+
+    Verus assumes what it failed to prove and goes on: a loop invariant clause that is not established is still assumed
+    at the loop head (body, exits and everything after the loop are verified under it); a call whose precondition
+    failed still delivers its postcondition; a failed overflow / index / multi-line assert is assumed to hold
+    afterwards.  An obligation that Verus reports proved in such a function may therefore be proved from a false
+    assumption.  It must not be counted as discharged, and it is not a refutation either: it is CONDITIONAL
+    (`obl[l]["conditional"]` = reasons); a property whose obligations are proved-or-conditional, none failed, is
+    reported undecided by ./check (exit 2), never OK and never VIOLATION.
+
+    Per function with failures located in it:
+      (c) failed invariant / loop-ensures clauses -> a variant in which exactly those clause spans read `true`
+          (together with the postcondition groups and one-line hint asserts that _unmask removed); every labelled
+          obligation that fails in the variant but was ok depends on the removed clause -> conditional.  Iterated,
+          because a clause uncovered in one round is assumed again in the next.
+      (d) any other failure that cannot be taken out of the text (call precondition, arithmetic, index, panic
+          reachability, termination, multi-line assert) -- in the original or in a variant -> every remaining ok
+          obligation with a clause inside this function is conditional (no finer path analysis is attempted)."""
+    rs = m["rs"]
+    vfile_base = rs[:-3] + "_cond.rs"
+    for (s_, e_, fk) in m["fnmap"]:
+        errs = [(lab, e) for lab, o in obl.items() for e in o["errors"]
+                if e.get("function") == fk and s_ <= (e.get("line") or 0) <= e_]
+        if not errs:
+            continue
+        local = sorted({m["linemap"][str(ln)] for ln in range(s_, e_ + 1) if str(ln) in m["linemap"]} & set(obl))
+        body_lab = "%s.body" % fk
+        if body_lab in obl:
+            local.append(body_lab)
+
+        def still_ok():
+            return [l for l in local if obl[l]["discharged"] and not obl[l].get("conditional")]
+        if not still_ok():
+            continue
+        # header region (contract) of the function: failed postcondition groups are dropped there, as in _unmask
+        region = []
+        for ln in range(s_, e_ + 1):
+            st = lines[ln - 1].strip()
+            if ln > s_ and (st == "{" or st.startswith("{")):
+                break
+            region.append(ln)
+        def kind(e):
+            msg = e.get("message") or ""
+            if "invariant not satisfied" in msg:
+                return "inv"
+            if "postcondition" in msg:
+                return "post"
+            if "assertion failed" in msg and _is_one_line_assert(lines, e["line"]) and e["line"] not in region:
+                return "assert1"
+            return "hard"
+        hard = [(lab, e) for lab, e in errs if kind(e) == "hard"]
+        inv = {tuple(e["span"]): lab for lab, e in errs if kind(e) == "inv" and e.get("span")}
+        inv_nospan = [(lab, e) for lab, e in errs if kind(e) == "inv" and not e.get("span")]
+        hard += inv_nospan
+        reason_hard = None
+        if hard:
+            reason_hard = "%s: %s (line %d, obligation %s) is assumed by Verus on the rest of the path" % (
+                fk, hard[0][1]["message"], hard[0][1]["line"], hard[0][0])
+        removed_spans = {}
+        rounds = 0
+        while inv and not reason_hard and rounds < 6:
+            new = {sp: lab for sp, lab in inv.items() if sp not in removed_spans}
+            if not new:
+                break
+            removed_spans.update(new)
+            rounds += 1
+            failed_labs = {l for l in local if not obl[l]["discharged"]}
+            drop = {ln for ln in region if m["linemap"].get(str(ln)) in failed_labs
+                    and any("postcondition" in (e["message"] or "") for e in obl[m["linemap"][str(ln)]]["errors"] if e.get("function") == fk)}
+            dead = {e["line"] for lab, e in errs if kind(e) == "assert1"}
+            var = list(lines)
+            for ln in drop:
+                var[ln - 1] = ""
+            for ln in dead:
+                var[ln - 1] = "// [cond] " + lines[ln - 1].strip()
+            for (ls, cs, le, ce) in sorted(removed_spans, reverse=True):
+                if ls == le:
+                    var[ls - 1] = var[ls - 1][:cs - 1] + "true" + var[ls - 1][ce - 1:]
+                else:
+                    var[ls - 1] = var[ls - 1][:cs - 1] + "true"
+                    for k in range(ls + 1, le):
+                        var[k - 1] = ""
+                    var[le - 1] = var[le - 1][ce - 1:]
+            with open(vfile_base, "w") as f:
+                f.write("\n".join(var) + "\n")
+            res = _run_verus(vfile_base, list(extra) + ["--verify-function", fk, "--verify-root"])
+            vfile = os.path.basename(vfile_base)
+            why = "proved only under the loop invariant clause(s) of %s that failed: %s" % (
+                fk, ", ".join("%s@%d" % (lab, sp[0]) for sp, lab in sorted(removed_spans.items())))
+            for d in res["diags"]:
+                c = classify(d)
+                if c == "frontend":
+                    raise RuntimeError("conditional-pass variant for %s does not compile: %s" % (fk, (d.get("message") or "")[:200]))
+                if c == "resource":
+                    reason_hard = "%s: solver resource limit in the variant without the failed invariant clause" % fk
+                    continue
+                if c != "verif":
+                    continue
+                spans = [x for x in (resolve_span(sp, vfile) for sp in d.get("spans", [])) if x is not None]
+                msg = d.get("message") or ""
+                clause = [sp for sp in spans if (sp.get("label") or "").startswith("failed this ")]
+                prim = clause or [sp for sp in spans if sp.get("is_primary")] or spans
+                if not prim:
+                    reason_hard = "%s: unattributable failure in the variant" % fk
+                    continue
+                p0 = prim[0]
+                lab = None
+                for ln in range(p0["line_start"], p0["line_end"] + 1):
+                    lab = m["linemap"].get(str(ln))
+                    if lab in obl:
+                        break
+                    lab = None
+                if lab is None:
+                    lab = body_lab if body_lab in obl else None
+                e2 = dict(message=msg, function=fk, line=p0["line_start"],
+                          span=[p0["line_start"], p0["column_start"], p0["line_end"], p0["column_end"]])
+                k2 = kind(e2)
+                if lab and obl[lab]["discharged"]:
+                    obl[lab].setdefault("conditional", [])
+                    if why not in obl[lab]["conditional"]:
+                        obl[lab]["conditional"].append(why)
+                if k2 == "inv":
+                    inv.setdefault(tuple(e2["span"]), lab or body_lab)
+                elif k2 == "hard":
+                    reason_hard = "%s: without the failed invariant clause, %s (line %d) fails and is assumed by Verus on the rest of the path" % (
+                        fk, msg, p0["line_start"])
+        if reason_hard:
+            for l in still_ok():
+                obl[l].setdefault("conditional", []).append(reason_hard)
+
+
 def verify_unit(unit, canary=True, extra=()):
     r = UnitResult()
     r.unit = unit
@@ -331,7 +468,10 @@ def verify_unit(unit, canary=True, extra=()):
                 frontend.append("unattributable error: " + (d.get("rendered") or d.get("message")))
                 continue
         obl[label]["discharged"] = False
+        p0 = prim[0] if prim else None
         obl[label]["errors"].append(dict(message=d.get("message"), function=fnname, line=pl,
+                                         span=([p0["line_start"], p0["column_start"], p0["line_end"], p0["column_end"]]
+                                               if p0 and "column_start" in p0 else None),
                                          rendered=(d.get("rendered") or "")[:4000]))
     # ---- unmasking pass.  With --multiple-errors Verus ASSUMES a failed postcondition and checks the following
     # clauses of the same exit under that assumption; a false earlier clause therefore masks every later one (which may
@@ -341,7 +481,8 @@ def verify_unit(unit, canary=True, extra=()):
     if not frontend and not resource:
         try:
             _unmask(m, lines, obl, extra)
-        except Exception as e:          # the pass can only ADD failures; if it breaks, say so instead of hiding it
+            _conditional(m, lines, obl, extra)
+        except Exception as e:          # the passes can only ADD failures; if one breaks, say so instead of hiding it
             frontend.append("unmasking pass failed: %r" % (e,))
     r.obligations = obl
     r.frontend = frontend
@@ -409,7 +550,9 @@ if __name__ == "__main__":
     if r.map:
         print("verified fns:", r.verified_count, "errors:", r.error_count, "wall %.1fs smt %dms" % (r.wall, r.smt_ms))
         for k, v in sorted(r.obligations.items()):
-            print("  %-45s %-9s props=%s" % (k, "ok" if v["discharged"] else "FAILED", ",".join(v["props"])))
+            print("  %-45s %-9s props=%s" % (k, ("FAILED" if not v["discharged"] else "COND" if v.get("conditional") else "ok"), ",".join(v["props"])))
+            for c_ in v.get("conditional", []):
+                print("       conditional:", c_)
             for e in v["errors"]:
                 print("      ", e["message"], "in", e["function"], "line", e["line"])
         if r.frontend:
